@@ -113,9 +113,8 @@ def descFields (s : String) : List (String × String) :=
 
 def parseDashInts (s : String) : Option (List Int) := if s == "-" then some [] else parseIntList s
 
-def parseBlobStr (s : String) : Option String := do
-  let b ← parseBlob s
-  String.fromUTF8? (ByteArray.mk b.toArray)
+/-- byte strings are carried in `String`s by the Latin-1 bijection -/
+def parseBlobStr (s : String) : Option String := (parseBlob s).map blobToStr
 
 def parseDashStrs (s : String) : Option (List String) :=
   if s == "-" then some [] else (s.splitOn ",").mapM parseBlobStr
